@@ -185,6 +185,80 @@ theorem u8x4_sse4_pixel_eq_portable (p : Nat) (hp : p < 32) (row : List Int) (st
   rw [loop_eq]
   simp only [List.map, lane_finish _ p hp]
 
+/-! ### the four-row kernel (per row) -/
+
+theorem acc4r_eq (t0 t1 t2 t3 : Int) (row : List Int) (x : Nat) (k0 k1 k2 k3 : Int) :
+    acc4r [wrap32 t0, wrap32 t1, wrap32 t2, wrap32 t3] row x k0 k1 k2 k3
+      = [wrap32 (t0 + dotC row 0 [k0, k1, k2, k3] x), wrap32 (t1 + dotC row 1 [k0, k1, k2, k3] x),
+         wrap32 (t2 + dotC row 2 [k0, k1, k2, k3] x), wrap32 (t3 + dotC row 3 [k0, k1, k2, k3] x)] := by
+  simp only [acc4r, clone4, add32, madd, pshufb, i16At, srcBytes, kBytes, u8x4_sse4_four_mask_lo, u8x4_sse4_four_mask_hi,
+    List.range, List.range.loop, List.map, List.flatMap_cons, List.flatMap_nil, List.append_nil,
+    List.cons_append, List.nil_append, List.getD_cons_succ, List.getD_cons_zero, List.zipWith, dotC]
+  simp [i16_byte, i16_lohi, w32_add_left, w32_add_right]
+  refine ⟨?_, ?_, ?_, ?_⟩ <;> (congr 1 <;> ring_nf)
+
+theorem acc2r_eq (t0 t1 t2 t3 : Int) (row : List Int) (x : Nat) (k0 k1 : Int) :
+    acc2r [wrap32 t0, wrap32 t1, wrap32 t2, wrap32 t3] row x k0 k1
+      = [wrap32 (t0 + dotC row 0 [k0, k1] x), wrap32 (t1 + dotC row 1 [k0, k1] x),
+         wrap32 (t2 + dotC row 2 [k0, k1] x), wrap32 (t3 + dotC row 3 [k0, k1] x)] := by
+  simp only [acc2r, clone4, low64, add32, madd, pshufb, i16At, srcBytes, kBytes, u8x4_sse4_four_mask,
+    List.range, List.range.loop, List.map, List.flatMap_cons, List.flatMap_nil, List.append_nil, List.replicate,
+    List.cons_append, List.nil_append, List.getD_cons_succ, List.getD_cons_zero, List.zipWith, dotC]
+  simp [i16_byte, i16_lohi, w32_add_left, w32_add_right]
+  refine ⟨?_, ?_, ?_, ?_⟩ <;> (congr 1 <;> ring_nf)
+
+theorem tailR_eq (t0 t1 t2 t3 : Int) (row : List Int) (x : Nat) (ks : List Int) (hlen : ks.length < 4) :
+    tailR [wrap32 t0, wrap32 t1, wrap32 t2, wrap32 t3] row x ks
+      = [wrap32 (t0 + dotC row 0 ks x), wrap32 (t1 + dotC row 1 ks x),
+         wrap32 (t2 + dotC row 2 ks x), wrap32 (t3 + dotC row 3 ks x)] := by
+  match ks, hlen with
+  | [], _ => simp [tailR, dotC]
+  | [k0], _ => simp only [tailR]; rw [acc1_eq]
+  | [k0, k1], _ => simp only [tailR]; rw [acc2r_eq]
+  | [k0, k1, k2], _ =>
+    have e : ∀ c, dotC row c [k0, k1, k2] x = dotC row c [k0, k1] x + dotC row c [k2] (x + 2) :=
+      fun c => by simpa using dotC_append row c [k0, k1] [k2] x
+    simp only [tailR]; rw [acc2r_eq, acc1_eq]; simp only [e, add_assoc]
+  | _ :: _ :: _ :: _ :: _, h => exfalso; simp at h; omega
+
+theorem loopR_eq (row : List Int) (ks : List Int) : ∀ (x : Nat) (t0 t1 t2 t3 : Int),
+    loopR row ks x [wrap32 t0, wrap32 t1, wrap32 t2, wrap32 t3]
+      = [wrap32 (t0 + dotC row 0 ks x), wrap32 (t1 + dotC row 1 ks x),
+         wrap32 (t2 + dotC row 2 ks x), wrap32 (t3 + dotC row 3 ks x)] := by
+  induction hn : ks.length using Nat.strong_induction_on generalizing ks with
+  | _ n ih =>
+    intro x t0 t1 t2 t3
+    match ks, hn with
+    | k0 :: k1 :: k2 :: k3 :: rest, hn =>
+      simp only [loopR]
+      rw [acc4r_eq]
+      have hrest : rest.length < n := by simp at hn; omega
+      rw [ih rest.length hrest rest rfl]
+      have e : ∀ c, dotC row c (k0 :: k1 :: k2 :: k3 :: rest) x
+          = dotC row c [k0, k1, k2, k3] x + dotC row c rest (x + 4) := by
+        intro c
+        have := dotC_append row c [k0, k1, k2, k3] rest x
+        simpa using this
+      simp only [e, add_assoc]
+    | [], _ => simp only [loopR]; exact tailR_eq t0 t1 t2 t3 row x [] (by simp)
+    | [k0], _ => simp only [loopR]; exact tailR_eq t0 t1 t2 t3 row x [k0] (by simp)
+    | [k0, k1], _ => simp only [loopR]; exact tailR_eq t0 t1 t2 t3 row x [k0, k1] (by simp)
+    | [k0, k1, k2], _ => simp only [loopR]; exact tailR_eq t0 t1 t2 t3 row x [k0, k1, k2] (by simp)
+
+/-- **each row of the SSE4.1 U8x4 four-row kernel equals the portable kernel**, byte for byte -/
+theorem u8x4_sse4_four_rows_pixel_eq_portable (p : Nat) (hp : p < 32) (row : List Int) (start : Nat) (ks : List Int) :
+    pixelR p row start ks = [clip8 (2 ^ (p - 1) + dotC row 0 ks start) p, clip8 (2 ^ (p - 1) + dotC row 1 ks start) p,
+                             clip8 (2 ^ (p - 1) + dotC row 2 ks start) p, clip8 (2 ^ (p - 1) + dotC row 3 ks start) p] := by
+  unfold pixelR
+  simp only
+  rw [loopR_eq]
+  simp only [List.map, lane_finish _ p hp]
+
+/-- hence both kernels of the pass - four-row blocks and leftover rows - store the same bytes for the same row -/
+theorem u8x4_sse4_four_rows_eq_one_row (p : Nat) (hp : p < 32) (row : List Int) (start : Nat) (ks : List Int) :
+    pixelR p row start ks = pixel p row start ks := by
+  rw [u8x4_sse4_four_rows_pixel_eq_portable p hp, u8x4_sse4_pixel_eq_portable p hp]
+
 /-! ### in the vocabulary of the portable model: `Fir.passInt` on the window of source samples -/
 
 theorem dotC_eq_dotL (row : List Int) (c : Nat) (ks : List Int) (x : Nat)
